@@ -86,6 +86,17 @@ def _run_cfg(ctx, rep, prog, cfg):
             if method in EXEMPT_FLOW:
                 rep.ob("C11.flow", method + tag, True, "exempt: " + EXEMPT_FLOW[method], loc=poll.span, how="audit")
                 continue
+            # an unchecked use is the bypass maybe_wkc itself has when it lies on the `None` edge of a test of the builder's
+            # own `wkc` option (`if let Some(e) = self.wkc { r.wkc(e) } else { Ok(r) }`: maybe_wkc written out)
+            none_dom = set()
+            for cd in q.conds(b):
+                if cd.kind == "discr" and cd.place is not None and "Option" in (cd.enum_ty or ""):
+                    rr = pr.of_place(cd.place)
+                    if has_root(rr, "field", b.impl_adt_s, "wkc") or any(x[0] == "upvar" and x[2] in ("wkc", "self") for x in rr) and has_root(rr, "field", b.impl_adt_s, "wkc"):
+                        nt = cd.variant_targets(prog).get("None")
+                        if nt is not None:
+                            none_dom |= q.edge_dominated(b, cd.bb, nt)
+            leaks = [u for u in leaks if u[1] not in none_dom]
             for u in leaks:
                 kind, bi, si, payload = u
                 what = payload.name if kind == "call" else kind
